@@ -1,16 +1,287 @@
 """Translator: reads the current sources under /repo and regenerates
-lean/StunVerif/Gen/Source.lean (constants and single-expression integer functions).
-Filled in as properties that depend on it are built."""
+lean/StunVerif/Gen/Source.lean — every constant the properties depend on and every
+single-expression integer function, translated token by token (Rust precedence, explicit width
+masks) into Lean `Nat` bit operations.
+
+If an item's source shape is no longer recognised the committed fallback value is emitted, the item
+is listed under `fallback`, and that item is then covered by the correspondence run only."""
 import os, re
 
+# ------------------------------------------------------------------------------ expression translator
 
-def generate(repo, out_path):
-    items, fallbacks, lines = [], [], []
-    lines.append("/- GENERATED by tools/extract_source.py from /repo on every run. Do not edit. -/")
-    lines.append("namespace StunVerif.Gen")
-    lines.append("end StunVerif.Gen")
-    body = "\n".join(lines) + "\n"
-    os.makedirs(os.path.dirname(out_path), exist_ok=True)
-    if not os.path.exists(out_path) or open(out_path).read() != body:
-        open(out_path, "w").write(body)
-    return dict(extracted=items, fallback=fallbacks)
+TOK = re.compile(r"\s*(0x[0-9a-fA-F_]+(?:u\d+|usize)?|\d[\d_]*(?:u\d+|usize)?|[A-Za-z_][A-Za-z0-9_]*(?:::[A-Za-z_][A-Za-z0-9_]*)*(?:\.\d+)?"
+                 r"|<<|>>|==|!=|<=|>=|&&|\|\||[-+*/%&|^()<>!])")
+
+# binary operator -> (precedence, lean operator); higher binds tighter (Rust reference order)
+BINOPS = {
+    "*": (10, "*"), "/": (10, "/"), "%": (10, "%"),
+    "+": (9, "+"), "-": (9, "-"),
+    "<<": (8, "<<<"), ">>": (8, ">>>"),
+    "&": (7, "&&&"), "^": (6, "^^^"), "|": (5, "|||"),
+    "==": (4, "=="), "!=": (4, "!="), "<": (4, "<"), ">": (4, ">"), "<=": (4, "<="), ">=": (4, ">="),
+}
+AS_PREC = 11
+
+
+class XlateError(Exception):
+    pass
+
+
+def tokenize(src):
+    out, i = [], 0
+    src = src.strip()
+    while i < len(src):
+        m = TOK.match(src, i)
+        if not m:
+            raise XlateError(f"cannot tokenise at {src[i:i+20]!r}")
+        out.append(m.group(1))
+        i = m.end()
+    return out
+
+
+def lit(tok):
+    t = re.sub(r"(u\d+|usize)$", "", tok).replace("_", "")
+    return str(int(t, 16)) if t.lower().startswith("0x") else str(int(t))
+
+
+class Parser:
+    """Pratt parser for Rust integer expressions -> fully parenthesised Lean Nat expression.
+    `width` is the bit width of the expression's integer type: `<<`, `+`, `*` are reduced mod
+    2^width (wrapping is what survives a shift; for + and * the checked-overflow panic is modelled
+    separately where it matters)."""
+
+    def __init__(self, toks, env, width):
+        self.t, self.i, self.env, self.width = toks, 0, env, width
+
+    def peek(self):
+        return self.t[self.i] if self.i < len(self.t) else None
+
+    def next(self):
+        tok = self.peek()
+        self.i += 1
+        return tok
+
+    def primary(self):
+        tok = self.next()
+        if tok is None:
+            raise XlateError("unexpected end")
+        if tok == "(":
+            e = self.expr(0)
+            if self.next() != ")":
+                raise XlateError("expected )")
+            return e
+        if re.match(r"\d", tok):
+            return lit(tok)
+        if tok in self.env:
+            return self.env[tok]
+        raise XlateError(f"unknown identifier {tok}")
+
+    def expr(self, minprec):
+        lhs = self.primary()
+        while True:
+            op = self.peek()
+            if op == "as" and AS_PREC >= minprec:
+                self.next()
+                ty = self.next()
+                m = re.match(r"u(\d+)$", ty or "")
+                if m:
+                    lhs = f"({lhs} % {2 ** int(m.group(1))})"
+                    self.width = int(m.group(1))
+                elif ty == "usize":
+                    pass
+                else:
+                    raise XlateError(f"cast to {ty}")
+                continue
+            if op in BINOPS and BINOPS[op][0] >= minprec:
+                prec, lop = BINOPS[op]
+                self.next()
+                rhs = self.expr(prec + 1)
+                e = f"({lhs} {lop} {rhs})"
+                if op == "<<":
+                    e = f"({e} % {2 ** self.width})"
+                lhs = e
+                continue
+            return lhs
+
+
+def xlate(src, env, width):
+    p = Parser(tokenize(src), env, width)
+    e = p.expr(0)
+    if p.peek() is not None:
+        raise XlateError(f"trailing tokens {p.t[p.i:]}")
+    return e
+
+
+# ------------------------------------------------------------------------------ source access
+
+def strip_comments(txt):
+    txt = re.sub(r"/\*.*?\*/", "", txt, flags=re.S)
+    return "\n".join(re.sub(r"//.*$", "", l) for l in txt.splitlines())
+
+
+def non_test(txt):
+    i = txt.find("#[cfg(test)]")
+    return txt if i < 0 else txt[:i]
+
+
+class Src:
+    def __init__(self, repo):
+        self.repo = repo
+        self.cache = {}
+
+    def get(self, rel):
+        if rel not in self.cache:
+            try:
+                self.cache[rel] = strip_comments(non_test(open(os.path.join(self.repo, rel)).read()))
+            except OSError:
+                self.cache[rel] = ""
+        return self.cache[rel]
+
+
+def fn_body(txt, header_regex):
+    """text between the braces of the first fn whose header matches"""
+    m = re.search(header_regex, txt)
+    if not m:
+        return None
+    i = txt.find("{", m.end() - 1)
+    if i < 0:
+        return None
+    depth, j = 0, i
+    while j < len(txt):
+        if txt[j] == "{":
+            depth += 1
+        elif txt[j] == "}":
+            depth -= 1
+            if depth == 0:
+                return txt[i + 1:j]
+        j += 1
+    return None
+
+
+# ------------------------------------------------------------------------------ items
+
+MSG = "stun-types/src/message.rs"
+ATTR = "stun-types/src/attribute/mod.rs"
+
+
+def items(src):
+    """yield (group, lean_name, lean_params, thunk, fallback_text).  thunk returns the Lean body."""
+    msg = src.get(MSG)
+
+    def const(txt, name):
+        m = re.search(r"const\s+" + name + r"\s*:\s*\w+\s*=\s*([^;]+);", txt)
+        if not m:
+            raise XlateError(f"const {name} not found")
+        return xlate(m.group(1), {}, 128)
+
+    yield ("MsgType", "magicCookie", "", lambda: const(msg, "MAGIC_COOKIE"), "554869826")
+    yield ("MsgType", "binding", "", lambda: const(msg, "BINDING"), "1")
+    yield ("MsgType", "headerLength", "", lambda: const(msg, "LENGTH"), "20")
+
+    # MessageClass::to_bits : match table in enum order Request, Indication, Success, Error
+    def to_bits():
+        b = fn_body(msg, r"fn\s+to_bits\s*\(\s*self\s*\)\s*->\s*u16\s*\{")
+        if b is None:
+            raise XlateError("to_bits not found")
+        vals = []
+        for cls in ("Request", "Indication", "Success", "Error"):
+            m = re.search(r"MessageClass::" + cls + r"\s*=>\s*([^,]+),", b)
+            if not m:
+                raise XlateError(f"to_bits arm {cls}")
+            vals.append(xlate(m.group(1), {}, 16))
+        return f"if c = 0 then {vals[0]} else if c = 1 then {vals[1]} else if c = 2 then {vals[2]} else {vals[3]}"
+    yield ("MsgType", "classToBits", "(c : Nat)", to_bits, "if c = 0 then 0 else if c = 1 then 16 else if c = 2 then 256 else 272")
+
+    def from_class_method():
+        b = fn_body(msg, r"fn\s+from_class_method\s*\(")
+        if b is None:
+            raise XlateError("from_class_method not found")
+        m = re.search(r"let\s+method_bits\s*=\s*([^;]+);", b)
+        m2 = re.search(r"Self\s*\(\s*([^)]+)\)", b)
+        if not (m and m2 and re.search(r"let\s+class_bits\s*=\s*MessageClass::to_bits\s*\(\s*class\s*\)\s*;", b)):
+            raise XlateError("from_class_method shape")
+        mb = xlate(m.group(1), {"method": "m"}, 16)
+        return xlate(m2.group(1), {"class_bits": "(classToBits c)", "method_bits": mb}, 16)
+    yield ("MsgType", "fromClassMethod", "(c m : Nat)", from_class_method,
+           "((classToBits c) ||| (((m &&& 15) ||| (((m &&& 112) <<< 1) % 65536)) ||| (((m &&& 3968) <<< 2) % 65536)))")
+
+    def class_of():
+        b = fn_body(msg, r"pub\s+fn\s+class\s*\(\s*self\s*\)\s*->\s*MessageClass\s*\{")
+        if b is None:
+            raise XlateError("class not found")
+        m = re.search(r"let\s+class\s*=\s*([^;]+);", b)
+        if not m:
+            raise XlateError("class shape")
+        e = xlate(m.group(1), {"self.0": "v"}, 16)
+        # the match table must map 0,1,2,3 to the enum in order
+        order = []
+        for k, cls in enumerate(("Request", "Indication", "Success", "Error")):
+            if not re.search(r"0x0*" + str(k) + r"\s*=>\s*MessageClass::" + cls, b):
+                raise XlateError(f"class match arm {k} is not {cls}")
+        return e
+    yield ("MsgType", "classOf", "(v : Nat)", class_of, "(((v &&& 16) >>> 4) ||| ((v &&& 256) >>> 7))")
+
+    def method_of():
+        b = fn_body(msg, r"pub\s+fn\s+method\s*\(\s*self\s*\)\s*->\s*u16\s*\{")
+        if b is None:
+            raise XlateError("method not found")
+        return xlate(b.strip(), {"self.0": "v"}, 16)
+    yield ("MsgType", "methodOf", "(v : Nat)", method_of, "(((v &&& 15) ||| ((v &&& 224) >>> 1)) ||| ((v &&& 15872) >>> 2))")
+
+    def not_stun():
+        hdr = r"pub\s+fn\s+from_bytes\s*\(\s*data\s*:\s*&\[u8\]\s*\)\s*->\s*Result<Self,\s*StunParseError>\s*\{"
+        b = None
+        for mm in re.finditer(hdr, msg):
+            cand = fn_body(msg[mm.start():], hdr)
+            if cand and "NotStun" in cand and "MAGIC_COOKIE" not in cand and re.search(r"let\s+data\s*=\s*BigEndian::read_u16\s*\(\s*data\s*\)", cand):
+                b = cand
+                break
+        if b is None:
+            raise XlateError("MessageType::from_bytes not found")
+        m = re.search(r"if\s+(data[^{]+)\{[^}]*NotStun", b, flags=re.S)
+        if not m:
+            raise XlateError("NotStun test shape")
+        return "decide " + xlate(m.group(1), {"data": "v"}, 16).replace("!=", "≠").replace("==", "=")
+    yield ("MsgType", "typeIsNotStun", "(v : Nat) : Bool", not_stun, "decide ((v &&& 49152) ≠ 0)")
+
+    def tid_from():
+        m = re.search(r"impl\s+From<u128>\s+for\s+TransactionId\s*\{\s*fn\s+from\s*\(\s*id\s*:\s*u128\s*\)\s*->\s*Self\s*\{\s*Self\s*\{\s*id\s*:\s*([^,}]+),?\s*\}", msg)
+        if not m:
+            raise XlateError("TransactionId::from shape")
+        return xlate(m.group(1), {"id": "x"}, 128)
+    yield ("MsgType", "tidFromU128", "(x : Nat)", tid_from, "(x &&& 79228162514264337593543950335)")
+
+
+def generate(repo, gen_dir):
+    """writes <gen_dir>/<Group>.lean for every item group; files are only rewritten when their
+    content changes (so that lake's traces stay valid)."""
+    if gen_dir.endswith(".lean"):
+        gen_dir = os.path.dirname(gen_dir)
+    src = Src(repo)
+    extracted, fallbacks = [], []
+    groups = {}
+    for group, name, params, thunk, fallback in items(src):
+        try:
+            body = thunk()
+            extracted.append(name)
+        except Exception as e:  # noqa
+            body = fallback
+            fallbacks.append(f"{name}: {e}")
+        ret = "" if ":" in params.split(")")[-1] else " : Nat"
+        groups.setdefault(group, []).append(f"def {name} {params}{ret} := {body}".replace("  ", " "))
+    os.makedirs(gen_dir, exist_ok=True)
+    for group, defs in groups.items():
+        lines = ["/- GENERATED by tools/extract_source.py from /repo's working tree on every run. Do not edit.",
+                 "   Each definition is the code's own constant or expression, translated token by token. -/",
+                 "namespace StunVerif.Gen", ""] + defs + ["", "end StunVerif.Gen"]
+        body = "\n".join(lines) + "\n"
+        out_path = os.path.join(gen_dir, group + ".lean")
+        if not os.path.exists(out_path) or open(out_path).read() != body:
+            open(out_path, "w").write(body)
+    return dict(extracted=extracted, fallback=fallbacks)
+
+
+if __name__ == "__main__":
+    import sys
+    print(generate(sys.argv[1] if len(sys.argv) > 1 else "/repo",
+                   sys.argv[2] if len(sys.argv) > 2 else "/tmp/gen"))
